@@ -180,5 +180,19 @@ def main():
     res, _ = pipeline.judge(bad, wd, shards=1)
     expect(not res[victim["id"]]["ok"] and any(w.startswith("C17") for w in res[victim["id"]]["whys"]), "PipelineJudge rejects one flipped ACTION cell (C17)", failures)
     expect(not res[flipped["id"]]["ok"] and any(w.startswith("C11") for w in res[flipped["id"]]["whys"]), "PipelineJudge rejects a conflict witness naming the same item twice (C11)", failures)
+    # ---- Numbering.tla: the real automaton is THE normal form; the same automaton with two state numbers exchanged is still
+    # the LALR(1) automaton (ok) but no longer in content order (canon = false, drift only)
+    expect(all(v.get("canon") is True for v in good.values()), "PipelineJudge finds every real automaton numbered in content order (Numbering.tla)", failures)
+    bad = copy.deepcopy(recs)
+    ren = next(r for r in bad if r["verdict"] == "ok" and r["machines"] and len(r["machines"][0]["states"]) > 2)
+    m = ren["machines"][0]
+    sw = {0: 1, 1: 0}
+    m["states"][0], m["states"][1] = m["states"][1], m["states"][0]
+    m["start"] = sw.get(m["start"], m["start"])
+    m["trans"] = [[sw.get(t[0], t[0]), t[1], sw.get(t[2], t[2])] for t in m["trans"]]
+    ren["tables"] = []
+    res, _ = pipeline.judge(bad, wd, shards=1)
+    expect(res[ren["id"]]["ok"] and res[ren["id"]].get("canon") is False,
+           "PipelineJudge: two exchanged state numbers leave the automaton correct (ok) but not in content order (canon false)", failures)
     print("%d control(s) failed" % len(failures) if failures else "all controls behaved as expected")
     return 2 if failures else 0
